@@ -174,11 +174,13 @@ PreOK(c) ==
   /\ G.segs = I.segs /\ LinkBag(G) = LinkBag(I)
   /\ PosValid(c.pre) /\ GraphOK(c.pre)
   /\ Cardinality({i \in RealIdx(c.pre) : IsContainment(Rec(c.pre.lines[i]))}) = c.intended.nconts
-  /\ \A i \in LIdx(c.pre) : c.pre.lines[i].virt = 0
+  \* placeholders only in the cases that were built to have them
+  /\ c.intended.virtok = 1 \/ \A i \in LIdx(c.pre) : c.pre.lines[i].virt = 0
 
 -----------------------------------------------------------------------------
 (* C15 *)
 LinesOfObs(o) == SeqMap(LAMBDA i : Rec(o.lines[i]), SetToSeq(RealIdx(o)))
+VirtLinesOfObs(o) == SeqMap(LAMBDA i : Rec(o.lines[i]), SetToSeq(LIdx(o) \ RealIdx(o)))
 NVirt(o) == Cardinality(LIdx(o) \ RealIdx(o))
 
 C15Fails(c) ==
@@ -189,7 +191,12 @@ C15Fails(c) ==
       same == c.m1.obs.dig = c.pre.dig /\ UnchangedOK(pre, post) IN
   (IF res = "FOREIGN" THEN {"foreign"} ELSE {})
   \cup (IF GraphOK(c.m1.obs) /\ PosValid(c.m1.obs) THEN {} ELSE {"C15.graph"})
-  \cup (IF NVirt(c.m1.obs) = 0 THEN {} ELSE {"C15.rest"})
+  \* placeholders (virtual lines): none appears in a graph without; in a graph with placeholders
+  \* (factor >= 2) those of the rest stay and none is invented on a copy
+  \cup (IF NVirt(c.pre) = 0 THEN (IF NVirt(c.m1.obs) = 0 THEN {} ELSE {"C15.rest"})
+        ELSE IF args.k >= 2 /\ res = "ok"
+             THEN PlaceholderFails(pre, post, VirtLinesOfObs(c.pre), VirtLinesOfObs(c.m1.obs), args)
+             ELSE {})
   \cup (IF args.k < 0 THEN (IF res \in ErrorClasses /\ same THEN {} ELSE {"C15.factor"})
         ELSE (IF res \notin {"ok", "FOREIGN"} THEN {"C15.refused"} ELSE {})
              \cup (IF args.k = 0 THEN (IF res = "ok" /\ RemovedOK(pre, post, args) THEN {} ELSE {"C15.factor"})
